@@ -222,10 +222,14 @@ func checkMain(args []string) {
 				assumed[a] = true
 			}
 			for _, o := range rep.Obligations {
-				if len(o.Tags) == 0 || hasTag(o.Tags, *prop) || !direct[k] {
-					o.Dep = !direct[k]
-					obls = append(obls, o)
+				// every clause of a function the property touches is part of its check: the clauses tagged with the
+				// property (and the untagged safety obligations) of a tagged function are its pinned top level;
+				// the function's other clauses are premises the tagged ones were proved against at its call sites
+				o.Dep = !(direct[k] && (len(o.Tags) == 0 || hasTag(o.Tags, *prop)))
+				if os.Getenv("GOVC_TAGGED_ONLY") != "" && o.Dep && direct[k] {
+					continue
 				}
+				obls = append(obls, o)
 			}
 		}
 	}
